@@ -6,10 +6,16 @@
 //!   (2^-1075 = half the least subnormal, the subnormal / normal border, the overflow threshold) and at sampled exponents;
 //!   at top level and nested in arrays / objects, negative too. The driver judges every number of the returned Value
 //!   against its literal with `Spec.Decimal` / `Spec.Ieee` (nearest-even under float_roundtrip).
+//! * `hist32` (every configuration): a HISTORY on one `serde_json::Deserializer` — an `f32` is requested first (from an
+//!   item that is a string / null / bool / container / out-of-range number: the request fails; or from a number: control),
+//!   then a `Value` is read from the SAME Deserializer. The Value must be what parsing its text alone gives.
+//!   Line format: see lean/SJ/Drv/C02.lean.
 #![allow(dead_code)]
 use crate::c07;
 use crate::common::*;
 use crate::obs::*;
+use serde::Deserialize;
+use serde_json::Value;
 
 // ------------------------------------------------------------------ tie neighbourhoods as members of documents
 /// cut lengths around the places where the conversion changes algorithm: 19 / 20 digits (u64 mantissa full), 768 (the
@@ -104,11 +110,146 @@ pub fn ties(sink: &mut Sink, cfg: &str, r: &mut Rng, thorough: bool) {
     }
 }
 
+// ------------------------------------------------------------------ a Value after an f32 request on one Deserializer
+fn lenient_f32<'de, D: serde::Deserializer<'de>>(d: D) -> Result<Option<f32>, D::Error> { Ok(f32::deserialize(d).ok()) }
+
+#[derive(Deserialize)]
+struct Reading {
+    #[serde(deserialize_with = "lenient_f32")]
+    gain: Option<f32>,
+    payload: Value,
+}
+
+struct FirstThenValue;
+impl<'de> serde::de::Visitor<'de> for FirstThenValue {
+    type Value = (Option<f32>, Option<Value>);
+    fn expecting(&self, f: &mut std::fmt::Formatter) -> std::fmt::Result { f.write_str("[f32-or-junk, value]") }
+    fn visit_seq<A: serde::de::SeqAccess<'de>>(self, mut seq: A) -> Result<Self::Value, A::Error> {
+        let first = seq.next_element::<f32>().ok().flatten();
+        let second: Option<Value> = seq.next_element()?;
+        Ok((first, second))
+    }
+}
+
+fn show_f32(o: Option<f32>) -> String { match o { Some(x) => format!("ok:{:08x}", x.to_bits()), None => "err".into() } }
+fn show_v(v: &Value) -> String { format!("V{}", enc(v)) }
+
+fn drive<'de, R: serde_json::de::Read<'de>>(mode: &str, mut de: serde_json::Deserializer<R>) -> String {
+    use serde::Deserializer as _;
+    match mode {
+        "two" => {
+            let first = show_f32(f32::deserialize(&mut de).ok());
+            // then Values until the input is exhausted (at most three)
+            let mut vs: Vec<String> = vec![];
+            for _ in 0..3 {
+                match Value::deserialize(&mut de) {
+                    Ok(v) => vs.push(show_v(&v)),
+                    Err(e) => { vs.push(if e.is_eof() { "END".into() } else { "E".to_string() }); break; }
+                }
+            }
+            format!("{}|{}", first, vs.join(","))
+        }
+        "fld" => match Reading::deserialize(&mut de) {
+            Ok(rd) => format!("{}|{}", show_f32(rd.gain), show_v(&rd.payload)),
+            Err(_) => "err|E".into(),
+        },
+        _ => match de.deserialize_seq(FirstThenValue) {
+            Ok((f, Some(v))) => format!("{}|{}", show_f32(f), show_v(&v)),
+            Ok((f, None)) => format!("{}|END", show_f32(f)),
+            Err(_) => "err|E".into(),
+        },
+    }
+}
+
+fn text_of(mode: &str, first: &[u8], second: &[u8]) -> Vec<u8> {
+    match mode {
+        "two" => [first, second].concat(),
+        "fld" => [b"{\"gain\":".as_ref(), first, b",\"payload\":", second, b"}"].concat(),
+        _ => [b"[".as_ref(), first, b",", second, b"]"].concat(),
+    }
+}
+
+fn emit_hist32(sink: &mut Sink, cfg: &str, mode: &str, src: &str, first: &[u8], second: &[u8], chunks: Vec<usize>, tag: &str) {
+    let text = text_of(mode, first, second);
+    let (m, s) = (mode.to_string(), src.to_string());
+    let o = std::panic::catch_unwind(move || match s.as_str() {
+        "str" => match std::str::from_utf8(&text) { Ok(t) => drive(&m, serde_json::Deserializer::from_str(t)), Err(_) => "-".into() },
+        "slice" => drive(&m, serde_json::Deserializer::from_slice(&text)),
+        _ => drive(&m, serde_json::Deserializer::from_reader(Chunked::new(&text, chunks))),
+    }).unwrap_or("PANIC".into());
+    let t = format!("hist32:{}:{}:{}:f32-{}", mode, src, tag, if o.starts_with("ok") { "ok" } else { "failed" });
+    sink.case("hist32", &[cfg, mode, src, &hexf(first), &hexf(second)], &o, &t, true);
+}
+
+/// floats that tell f32 rounding from f64 rounding, and neighbours (integers, strings, numbers outside the f32 range)
+const FLOATS: &[&str] = &["0.1", "16777217.0", "123456789.125", "1.2345678901234567e30", "-2.5e-40", "0.2", "-0.3", "1e-46", "1e39", "-3.5e38", "3.4028235677973366e38",
+    "1.0000000596046448", "33554435.5", "9007199254740993.0", "1e23", "2.2250738585072014e-308", "5e-324", "1.7976931348623157e308", "0.5", "1.5", "-0.0", "1E2",
+    "7", "-9223372036854775809", "18446744073709551616", "16777217", "\"0.1\"", "null", "true"];
+
+fn rand_float(r: &mut Rng) -> String {
+    match r.below(4) {
+        0 => FLOATS[r.below(22)].to_string(),
+        1 => { let f = f64::from_bits(((900 + r.below(250) as u64) << 52) | (r.next() & 0xfffffffffffff)); format!("{}{:e}", if r.chance(1, 3) { "-" } else { "" }, f) }
+        2 => format!("{}.{}", r.below(100000), 1 + r.below(99999)),
+        _ => format!("{}", f64::from_bits(((1000 + r.below(60) as u64) << 52) | (r.next() & 0xfffffffffffff))),
+    }
+}
+fn payload(r: &mut Rng, depth: usize) -> String {
+    match if depth == 0 { r.below(3) } else { r.below(7) } {
+        0 | 1 => rand_float(r),
+        2 => FLOATS[r.below(FLOATS.len())].to_string(),
+        3 | 4 => { let n = 1 + r.below(4); format!("[{}]", (0..n).map(|_| payload(r, depth - 1)).collect::<Vec<_>>().join(if r.chance(1, 3) { " , " } else { "," })) }
+        _ => { let n = 1 + r.below(4); format!("{{{}}}", (0..n).map(|i| format!("\"{}\":{}", ["a", "b", "c", "d", "a"][(i + r.below(2)) % 5], payload(r, depth - 1))).collect::<Vec<_>>().join(",")) }
+    }
+}
+
+/// first items: (text, consumed by the failed / successful request — containers are not)
+const FIRSTS: &[(&str, bool)] = &[("\"n/a\"", true), ("\"\"", true), ("\"\\u00e9 0.1\"", true), ("null", true), ("true", true), ("false", true),
+    ("1e39", true), ("-3.5e38", true), ("1e999", true), ("0.1", true), ("7", true), ("-2.5", true), ("16777217", true), ("1e-50", true), ("123456789.125", true),
+    ("[1.5]", false), ("[]", false), ("{\"a\":0.5}", false), ("[[0.1],\"x\"]", false)];
+
+pub fn hist32(sink: &mut Sink, cfg: &str, r: &mut Rng, thorough: bool) {
+    let demo = "{\"a\":0.1,\"b\":[1.2345678901234567e30,-2.5e-40,123456789.125],\"c\":16777217.0,\"d\":-9223372036854775809,\"e\":7,\"f\":\"0.1\"}";
+    // every first item x every mode x every source, fixed payloads
+    for (f, consumed) in FIRSTS {
+        for mode in ["two", "fld", "seq"] {
+            if mode != "two" && !*consumed { continue; }
+            for src in ["str", "slice", "reader"] {
+                for p in ["0.1", demo, "[16777217.0,{\"x\":123456789.125}]"] {
+                    let first = if mode == "two" { format!("{} ", f) } else { f.to_string() };
+                    emit_hist32(sink, cfg, mode, src, first.as_bytes(), p.as_bytes(), vec![1 + r.below(7)], "fixed");
+                }
+            }
+        }
+    }
+    // random payloads, separators and chunkings
+    for _ in 0..(if thorough { 6000 } else { 600 }) {
+        let (f, consumed) = *r.pick(FIRSTS);
+        let mode = if consumed { *r.pick(&["two", "two", "fld", "seq"]) } else { "two" };
+        let src = *r.pick(&["str", "slice", "reader"]);
+        let p = format!("{}{}", payload(r, 2), *r.pick(&["", "", " ", "\n"]));
+        let numeric = f.as_bytes()[0] == b'-' || f.as_bytes()[0].is_ascii_digit();
+        let first = match (mode, numeric) {
+            ("two", true) => format!("{}{}", f, *r.pick(&[" ", "\n", "\t ", "\r\n"])),
+            ("two", false) => format!("{}{}", f, *r.pick(&[" ", "\n", "", "  "])),
+            _ => format!("{}{}{}", *r.pick(&["", " "]), f, *r.pick(&["", " ", "\n"])),
+        };
+        let chunks = vec![1 + r.below(9), 1 + r.below(3)];
+        emit_hist32(sink, cfg, mode, src, first.as_bytes(), p.as_bytes(), chunks, "rand");
+    }
+}
+
+pub fn replay(sink: &mut Sink, toks: &[&str]) {
+    if toks.len() < 6 { return; }
+    let cfg = cfg_tag();
+    emit_hist32(sink, &cfg, toks[2], toks[3], &unhex(toks[4]), &unhex(toks[5]), vec![1], "replay");
+}
+
 pub fn run(sink: &mut Sink, thorough: bool, seed: u64) {
     // own generator state: the cases of c01::run stay what they were
     let mut r = Rng::new(seed ^ 0xc02c_02c0_2c02);
-    #[cfg(feature = "fr")]
     let cfg = cfg_tag();
+    hist32(sink, &cfg, &mut r, thorough);
     #[cfg(feature = "fr")]
     ties(sink, &cfg, &mut r, thorough);
 }
